@@ -1,4 +1,9 @@
-"""C09 — XorEncoded file view: op-history generators, adapters to the real library, independent oracle."""
+"""C09 — XorEncoded file view: op-history generators, adapters to the real library, independent oracle.
+
+Streams `g-*`: `iter_nonce_offsets` and `XorEncodedFile.__init__ / read_nonce / tell / seek / read` are also TRANSLATED from their
+source on every run (plug-in gen/py_xor.py → Gen/PyXor.lean, untyped translator) and proved equal to the hand-written model
+(Props/C09Gen.lean); every hist* / nonce / ino case is also executed through the translated definitions (`g-<stream>`), `g-arg` runs
+them on arguments of any kind.  (The run-time operations they use — file objects, range, max — are validated by the `pyu` stream of C15.)"""
 from __future__ import annotations
 
 import collections
@@ -13,9 +18,12 @@ from dissect.cobaltstrike import pe, utils, xordecode
 from dissect.cobaltstrike.xordecode import XorEncodedFile
 
 from . import common as C
+from . import pyuval, pyuval_t15
 
 ID = "C09"
 DRIVER = "drv_c09"
+GEN = ["py_utils", "py_scan", "py_xor"]
+EXTRA_PROP_FILES = ["Props/C09Gen.lean"]
 STREAMS = {
     "hist": {"relevant": True, "desc": "history of seek/read/tell on XorEncodedFile: seeks mostly in [0, len(plain)], some to negative targets "
              "(ValueError / clamp to 0) or with an invalid whence; read bytes, tell and exceptions compared with io.BytesIO(plain)"},
@@ -35,13 +43,28 @@ STREAMS = {
     "histneg": {"relevant": True, "desc": "histories built around seeks whose logical target is negative (just below 0, inside what used to be "
                 "the stub/header, before raw offset 0) on all three file kinds; seek return values (shifted), tell, reads and exceptions "
                 "compared with io.BytesIO(plain) (history_refines_all_seeks / trace_refines_all_seeks; fix 13416c7)"},
+    "g-hist": {"relevant": False, "desc": "XorEncodedFile.__init__ / seek / read / tell TRANSLATED from their source (Gen/PyXor.lean) vs the methods, on every case of hist"},
+    "g-histret": {"relevant": False, "desc": "translated methods vs the real ones on every case of histret (incl. the value returned by seek)"},
+    "g-histeof": {"relevant": False, "desc": "translated methods vs the real ones on every case of histeof"},
+    "g-histwild": {"relevant": False, "desc": "translated methods vs the real ones on every case of histwild"},
+    "g-histneg": {"relevant": False, "desc": "translated methods vs the real ones on every case of histneg"},
+    "g-nonce": {"relevant": False, "desc": "translated read_nonce vs the method on every case of nonce"},
+    "g-ino": {"relevant": False, "desc": "iter_nonce_offsets TRANSLATED from its source vs the function on every case of ino"},
+    "g-arg": {"relevant": False, "desc": "the translated definitions vs the real ones on arguments of ANY kind (None / str / bytes / bool where an int "
+              "or a file is expected): cases only the translation can express"},
 }
+G_STREAMS = ("hist", "histret", "histeof", "histwild", "histneg", "nonce", "ino")
 TRUSTED = [
     "tools/harness/c09.py generators, adapters and the BytesIO replay oracle; line protocol parsing in lean/CsVerif/Driver/C09.lean",
     "Model/PyFile.lean (io.BytesIO / buffered and unbuffered OS files) and C20.xor are modelled, validated by the hist*/nonce streams on "
     "both file kinds; collections.Counter.most_common is modelled (stream counter); dissect.cstruct struct reads are modelled as "
     "read(sizeof)+EOFError (stream mz); iter_find_needle is the C15 model (C15.iterFindNeedle, proved exact/sound/complete there), "
     "instantiated in C09.fromFileReal (streams detectfull/detectlog, buffer sizes 1..8192)",
+    "tools/py2leanu.py and lean/CsVerif/Model/PyU.lean + PyU_T15.lean (the untyped translator and its run-time library: file objects, an "
+    "instance that owns its file threaded through the methods, try/except OSError, generators as the list of their yields): trusted; "
+    "Props/C09Gen.lean proves the definitions translated from the source of iter_nonce_offsets and of XorEncodedFile.__init__ / read_nonce / "
+    "tell / seek / read equal to the hand-written model; the g-* streams run the translated definitions against the real code on every "
+    "hist* / nonce / ino case and on arguments of any kind; the run-time operations are validated by the pyu stream of C15",
 ]
 ASSUMPTIONS = [
     "raw layout stub ++ nonce(4) ++ size(4) ++ enc; the refinement theorem covers histories whose seeks land at logical positions >= 0, "
@@ -300,7 +323,43 @@ def gen_detect_raw(rng):
     return bytes(raw), off, maxrange
 
 
+def garg_case(rng):
+    """arguments of any kind for the translated definitions"""
+    r = rng.random()
+    if r < 0.35:
+        f = pyuval_t15.rfile(rng) if rng.random() < 0.9 else rng.choice([None, 5, b"ab"])
+        if isinstance(f, pyuval_t15.FileSpec) and rng.random() < 0.5:
+            raw, _ = mk_raw(rng, C.rbytes(rng, rng.choice([0, 3, 8])), rng.choice([0, 1, 2]), good_size=rng.random() < 0.7)
+            f = pyuval_t15.FileSpec(raw, rng.choice([0, 0, 3]), f.kind)
+        rs = rng.choice([None, None, None, 0, 8, 12, 16, 20, -1, True, "8", b"", [8]])
+        mr = rng.choice([0, 1, 2, 3, 8, 1024, True, False, -1, None, "4", b"", [1]])
+        return "gargi " + " ".join(pyuval_t15.show(x) for x in (f, rs, mr))
+    plen = rng.choice([0, 1, 3, 4, 5, 9])
+    raw, off = mk_raw(rng, C.rbytes(rng, plen), rng.choice([0, 1, 5]), good_size=False)
+    kind = rng.choice(["B", "B", "F"])
+    pos = rng.choice([0, 2, off + 8, off + 8 + min(2, plen), off + 8 + plen, len(raw) + 2])
+    head = f"gargm {kind} {off} {C.hx(raw)} {pos}"
+    if r < 0.45:
+        return head + " new " + pyuval.pshow(rng.choice([0, off, 1, True, False, -1, -2, len(raw) + 3, None, "1", b"", [0]]))
+    if r < 0.75:
+        o = rng.choice([0, 1, 3, plen, plen + 2, -1, -3, -50, True, False, None, "1", b"", [1]])
+        wh = rng.choice([0, 0, 1, 2, 2, True, False, 3, 7, -1, None, "0"])
+        return head + " seek " + pyuval.pshow(o) + " " + pyuval.pshow(wh)
+    n = rng.choice([None, -1, -7, 0, 1, 2, 3, 4, 5, 100, True, False, "3", b"", [2]])
+    return head + " read " + pyuval.pshow(n)
+
+
 def gen(tier, rng, shard, nshards):
+    """every case that calls iter_nonce_offsets / the view's methods is also run through the definitions translated from the source"""
+    for stream, line in gen0(tier, rng, shard, nshards):
+        yield stream, line
+        if stream in G_STREAMS:
+            yield "g-" + stream, "g" + line
+    for _ in range((60000 if tier == "thorough" else 6000) // nshards):
+        yield "g-arg", garg_case(rng)
+
+
+def gen0(tier, rng, shard, nshards):
     thorough = tier == "thorough"
     k = 0
 
@@ -528,7 +587,37 @@ def run_history(xf, ops, with_ret: bool):
     return " ".join(out)
 
 
+def _raw_tell(fh):
+    return str(fh.tell()) if hasattr(fh, "tell") else "-"
+
+
+def _garg(line):
+    """`gargi` / `gargm`: the real code on arguments of any kind"""
+    w = line.split()
+    if w[0] == "gargi":
+        args = [pyuval_t15.parse(t) for t in w[1:]]
+        with pyuval_t15.Opened(args) as a:
+            out = list(xordecode.iter_nonce_offsets(*a))
+            return "ok " + pyuval.pshow(out) + " " + _raw_tell(a[0])
+    fh = open_kind(w[1], C.unhx(w[3]))
+    try:
+        if w[5] == "new":
+            xf = XorEncodedFile(fh, pyuval_t15.parse(w[6]))
+            return "ok " + pyuval.pshow((xf.nonce_offset, xf.initial_nonce, xf.nonced_filesize)) + " " + str(fh.tell())
+        xf = XorEncodedFile(fh, nonce_offset=int(w[2]))
+        fh.seek(int(w[4]))
+        args = [pyuval_t15.parse(t) for t in w[6:]]
+        r = xf.seek(*args) if w[5] == "seek" else xf.read(*args)
+        return "ok " + pyuval.pshow(r) + " " + str(fh.tell())
+    finally:
+        fh.close()
+
+
 def impl(stream, line):
+    if stream == "g-arg":
+        return _garg(line)
+    if stream.startswith("g-"):
+        return impl(stream[2:], line[1:])        # the same real code
     w = line.split()
     if stream in ("hist", "histret", "histeof", "histwild", "histneg"):
         fh = open_kind(w[1], C.unhx(w[3]))
@@ -666,6 +755,8 @@ def history_verdict(line, with_ret: bool):
 
 
 def oracle(stream, line, out):
+    if stream.startswith("g-"):
+        return None
     w = line.split()
     if stream in ("hist", "histeof"):
         return out.split(" ") == history_verdict(line, False)
@@ -743,6 +834,10 @@ def detectlog_verdict(line, out):
 
 
 def nontrivial(stream, line, out):
+    if stream == "g-arg":
+        return not out.startswith("exc ")
+    if stream.startswith("g-"):
+        return nontrivial(stream[2:], line[1:], out)
     if stream == "histneg":
         return any(t.startswith("e") or (t.startswith("b") and len(t) > 1) for t in out.split(" "))
     if stream == "detectlog":
@@ -761,6 +856,12 @@ def nontrivial(stream, line, out):
 
 
 def shrink(stream, line):
+    if stream == "g-arg":
+        return
+    if stream.startswith("g-"):
+        for cand in shrink(stream[2:], line[1:]):
+            yield "g" + cand
+        return
     w = line.split(" ")
     if stream.startswith("hist"):
         ops = w[4].split(",")
